@@ -374,19 +374,11 @@ def compare_runs(ctx, ref, run, tols, tolname):
                     name, tolname, ref["alpha0"], run["alpha0"], ref["csqHigh0"],
                     run["csqHigh0"], ref["csqLow0"], run["csqLow0"], ref["unit"], run["unit"],
                     probe, PROBE_TOL, "; traced ranges differ" if ranges_differ else ""))
-        if lam > 1:
-            # field values large against scipy's ABSOLUTE finite-difference step (1.49e-8):
-            # checked property (fixed in /repo by scaling the step with the field scale)
-            ctx.fail_input(what, dict(kind="metamorphic", model=name, tols=run["tols"], **hist,
-                                      units=[ref["unit"], run["unit"]],
-                                      quantity="uninterpolated-EOS", probe=probe),
-                           key="site:findLocalMinimum-absolute-step")
-        else:
-            # small units: the minimiser's ABSOLUTE gradient tolerance (gtol = tol or 1e-5) is
-            # met at once.  Only the choice of the traced range depends on it (checked below
-            # through the range ends); logged, counted, not a failure by itself.
-            ctx.count("probe_small_units_absolute_gtol", bucket="x%g" % lam)
-            ctx.log("  note (site:findLocalMinimum-absolute-gtol): " + what)
+        # The probe alone is not a failure: the un-interpolated EOS only chooses the traced
+        # range.  EOS-stage deviations in this pair are attributed to the site (class rule of
+        # the known finding site:findLocalMinimum-absolute-step) below.
+        ctx.count("probe_offending_pairs", bucket="x%g" % lam)
+        ctx.log("  note: " + what)
     attributed = []
     for q in DIMLESS + list(DIMFUL):
         if q not in ref or q not in run:
@@ -400,7 +392,7 @@ def compare_runs(ctx, ref, run, tols, tolname):
         ctx.count("metamorphic_compare", bucket=q)
         if not dev <= tol:
             bad.append(q)
-            if lam > 1 and probe >= PROBE_TOL and ranges_differ and q in EOS_Q:
+            if probe >= PROBE_TOL and ranges_differ and q in EOS_Q:
                 attributed.append((q, a, b, d, dev, tol))
                 continue
             ctx.fail_input(
@@ -856,16 +848,20 @@ def run(ctx):
     # metamorphic end-to-end runs
     search = bool(ctx.broken) or sites_changed
     W, H = ("lte", "wall"), ()
+    # the recorded input of known finding site:findLocalMinimum-absolute-step
+    # (findings/C07_findLocalMinimum_units.json) is replayed first in every tier
+    RECORDED = ("yukawa4", "default", [100.0], H)
     if ctx.quick and not search:
-        plan = [("yukawa", "default", [1e-2, 10.0], W),
+        plan = [RECORDED, ("yukawa", "default", [1e-2, 10.0], W),
                 ("quarticwide", "default", [1e-2, 100.0], H)]
     elif ctx.quick:
         # a proof obligation / the site list / the correspondence is broken: widen the search
-        plan = [("yukawa", "default", [1e-2, 1e-1, 10.0, 100.0], W),
+        plan = [RECORDED, ("yukawa", "default", [1e-2, 1e-1, 10.0, 100.0], W),
                 ("quarticwide", "default", [1e-2, 100.0], W)]
     else:
-        plan = [(m, t, [1e-2, 1e-1, 10.0, 100.0], W) for m in ("yukawa", "quarticwide")
-                for t in ("default", "tight")] + [("yukawa4", "default", [1e-2, 100.0], W)]
+        plan = [("yukawa4", "default", [100.0, 1e-2], W)] + [
+            (m, t, [1e-2, 1e-1, 10.0, 100.0], W) for m in ("yukawa", "quarticwide")
+            for t in ("default", "tight")]
     # histories: the SAME model object (mode "model") or the same model and manager (mode
     # "manager") set up in one unit system first and then presented in another; the last run
     # must coincide with a fresh object presented in that unit system
